@@ -245,7 +245,7 @@ pub fn check_item(it: &Item, c: &Ctx, quick: bool, only: Option<NaiveDateTime>, 
     };
     let core = windows::w_core_blocks();
     let small = windows::w_small_blocks();
-    let budget: u64 = if quick { 4_000_000 } else { 100_000_000 };
+    let budget: u64 = if quick { 4_000_000 } else { 20_000_000 };
     let mut tally = |n: u64, ok: u64, trunc: bool, acc: &mut Acc| {
         acc.add("states", n);
         acc.add("transitions", n);
